@@ -13,7 +13,7 @@ checks = {
     note="sequentially consistent executions only; <=3 threads; sampling, not enumeration of all interleavings", ref="DESIGN.md §4 C01, §2.2-2.5"),
  "C02": dict(cat="exploration", tech=T_SEQ + "; full per-frame state comparison after every call",
     text="Seeded random sequential histories (20-120 calls) over 1-4 trees (one run in twelve: up to 24 trees) incl. partial last trees, simple/movable/zeroed classings, free-all and allocate-all starts; success/failure of every free and targeted allocation is predicted exactly by the model and the status of every frame is compared after every call that changed anything (and periodically otherwise).",
-    note="bounded-exhaustive enumeration of an operation alphabet is not attempted (that would be model checking); the quick tier runs the default geometry and a short batch of the 8-huge-frames-per-tree build, the thorough tier all five geometries", ref="DESIGN.md §4 C02"),
+    note="bounded-exhaustive enumeration of an operation alphabet is not attempted (that would be model checking); the quick tier runs the default geometry and short batches of the 8-huge-frames-per-tree and the 16K-frame builds, the thorough tier all five geometries", ref="DESIGN.md §4 C02"),
  "C03": dict(cat="exploration", tech=T_CONC + "; oracle: no panic in any thread, put of a held block returns Ok",
     text="Same interleaving search as C01 with stall/PCT-biased schedules and emphasis on threads freeing different parts of one split huge frame; every call runs under catch_unwind, panics are identified by message+file. One genuine defect is a recorded known finding (partial_put_huge gives up after 4 spins).",
     note="known finding C03/panic:lower.rs:Exceeding_retries ends ~25% of the K3 runs early", ref="DESIGN.md §4 C03, §6"),
@@ -25,7 +25,7 @@ checks = {
     note="strict persistency (prefix of the write order is durable); relaxed cross-cache-line persistence not modelled", ref="DESIGN.md §4 C05"),
  "C06": dict(cat="exploration", tech="deterministic simulation harness used as a configuration sweep (no schedule dimension): init + exhaustion / free-everything driven through the real allocator and judged by the model",
     text="Quick: boundary frame counts around multiples of 64, HUGE_FRAMES and TREE_FRAMES (+-3) plus seeded values; thorough: every frame count from 1 to 4 trees in both init modes. Exactly the managed frames are allocatable / freeable once, all views equal the model, nothing at or beyond the managed count is reported or returned.",
-    note="single-thread; the quick tier runs the default geometry and a short batch of the 8-huge-frames-per-tree build, the thorough tier all five geometries", ref="DESIGN.md §4 C06"),
+    note="single-thread; the quick tier runs the default geometry and short batches of the 8-huge-frames-per-tree and the 16K-frame builds, the thorough tier all five geometries", ref="DESIGN.md §4 C06"),
  "C07": dict(cat="exploration", tech=T_SEQ + " with a warm-restart fault: at a seeded quiescent point the three metadata buffers are byte-copied and a second allocator is built with Init::None; both are then driven in lock-step",
     text="Lock-step equality of every call result and of stats / tree_stats (all fields) / sampled stats_at between the original and the allocator rebuilt from its metadata, over seeded continuations including drains and tree changes.",
     note="one handoff per history at a random point", ref="DESIGN.md §4 C07"),
